@@ -106,40 +106,38 @@ def build_lock(name):
         f.close()
 
 
-def build_harness(variant="std"):
+def build_harness(engine):
     with build_lock("harness"):
-        return _build_harness(variant)
+        return _build_harness(engine)
 
 
-def _build_harness(variant="std"):
-    """Compile /repo/src + /verif/harness into build/<hash>/hdrv_<variant>; return its path."""
-    repo_files = glob.glob(os.path.join(REPO, "src", "*.[ch]")) + [os.path.join(REPO, "strophe.h")]
-    h_files = glob.glob(os.path.join(VERIF, "harness", "*.[ch]"))
-    defs = repo_defs()
-    key = _hash_inputs(repo_files + h_files, (defs, CFLAGS, LDLIBS, variant))
-    out_dir = os.path.join(BUILD, key)
-    exe = os.path.join(out_dir, "hdrv_" + variant)
-    if os.path.exists(exe):
-        os.utime(out_dir, None)
-        return exe
-    os.makedirs(out_dir, exist_ok=True)
-    _prune_builds(out_dir)
-    _gen_engine_table(out_dir, h_files)
-    replaced = VARIANT_REPLACED.get(variant, set())
-    srcs = [os.path.join(REPO, "src", s) for s in LIB_SOURCES if s not in replaced]
-    srcs += [f for f in h_files if f.endswith(".c") and _in_variant(f, variant)]
-    jobs = []
-    for s in srcs:
-        o = os.path.join(out_dir, variant + "_" + os.path.basename(os.path.dirname(s)) + "_" +
-                         os.path.basename(s)[:-2] + ".o")
-        cmd = ["clang-14", "-c", s, "-o", o, "-I" + REPO, "-I" + os.path.join(REPO, "src"),
-               "-I" + os.path.join(VERIF, "harness"), "-I" + out_dir] + CFLAGS + defs
-        jobs.append((cmd, o))
-    logs = []
+ALWAYS = ["hcommon.c", "hdrv.c", "hconn.c"]
+DEFAULT_WRAPS = ["select", "gettimeofday", "clock_gettime"]
 
+
+def engine_directives(engine):
+    """harness/eng_<engine>.c may carry lines
+         /* HARNESS wraps: sym1,sym2 */      extra -Wl,--wrap= symbols for this engine's binary
+         /* HARNESS replaces: scram.c */     /repo/src files NOT linked (compiled via an extra file)
+         /* HARNESS extra: wrap_scram.c */   further harness/*.c files to link
+    Every engine gets its own binary, so wraps and replacements never affect another engine."""
+    path = os.path.join(VERIF, "harness", "eng_%s.c" % engine)
+    d = {"wraps": [], "replaces": [], "extra": []}
+    with open(path) as f:
+        text = f.read()
+    for m in re.finditer(r"HARNESS\s+(wraps|replaces|extra)\s*:\s*([^*\n]*)", text):
+        d[m.group(1)] += [x.strip() for x in m.group(2).split(",") if x.strip()]
+    return d
+
+
+def _compile_many(jobs):
     def run(job):
         cmd, o = job
-        p = subprocess.run(cmd, capture_output=True, text=True)
+        if os.path.exists(o):
+            return (0, "", o)
+        p = subprocess.run(cmd[:-1] + [o + ".tmp"], capture_output=True, text=True)
+        if p.returncode == 0:
+            os.replace(o + ".tmp", o)
         return (p.returncode, " ".join(cmd) + "\n" + p.stdout + p.stderr, o)
 
     with concurrent.futures.ThreadPoolExecutor(max_workers=16) as ex:
@@ -147,50 +145,62 @@ def _build_harness(variant="std"):
     failed = [r for r in results if r[0] != 0]
     if failed:
         raise BuildError("harness compile failed", "\n".join(r[1] for r in failed)[-6000:])
-    objs = [r[2] for r in results]
-    wraps = VARIANT_WRAPS.get(variant, [])
-    cmd = ["clang-14", "-o", exe + ".tmp"] + objs + ["-fsanitize=address,undefined"] + \
-          ["-Wl,--wrap=" + w for w in wraps] + LDLIBS
-    p = subprocess.run(cmd, capture_output=True, text=True)
-    if p.returncode != 0:
-        raise BuildError("harness link failed", (p.stdout + p.stderr)[-6000:])
-    os.replace(exe + ".tmp", exe)
-    for o in objs:
+    return [r[2] for r in results]
+
+
+def _build_harness(engine):
+    """Compile /repo/src (objects cached per content hash) and link them with harness/hcommon.c,
+    hdrv.c, hconn.c, eng_<engine>.c (+ its extras) into build/<hash>/hdrv_<engine>_<hhash>."""
+    repo_files = glob.glob(os.path.join(REPO, "src", "*.[ch]")) + [os.path.join(REPO, "strophe.h")]
+    defs = repo_defs()
+    rkey = _hash_inputs(repo_files, (defs, CFLAGS))
+    out_dir = os.path.join(BUILD, rkey)
+    os.makedirs(out_dir, exist_ok=True)
+    os.utime(out_dir, None)
+    _prune_builds(out_dir)
+    d = engine_directives(engine)
+    hnames = ALWAYS + ["eng_%s.c" % engine] + d["extra"]
+    hsrcs = [os.path.join(VERIF, "harness", n) for n in hnames]
+    hdeps = hsrcs + glob.glob(os.path.join(VERIF, "harness", "*.h")) + \
+        [os.path.join(REPO, "src", r) for r in d["replaces"]]
+    hkey = _hash_inputs(hdeps, (d, LDLIBS, DEFAULT_WRAPS))
+    exe = os.path.join(out_dir, "hdrv_%s_%s" % (engine, hkey))
+    if os.path.exists(exe):
+        return exe
+    for old in glob.glob(os.path.join(out_dir, "hdrv_%s_*" % engine)):
         try:
-            os.remove(o)
+            os.remove(old)
         except OSError:
             pass
+    inc = ["-I" + REPO, "-I" + os.path.join(REPO, "src"), "-I" + os.path.join(VERIF, "harness")]
+    jobs = []
+    for s in LIB_SOURCES:
+        o = os.path.join(out_dir, "lib_" + s[:-2] + ".o")
+        jobs.append((["clang-14", "-c", os.path.join(REPO, "src", s)] + inc + CFLAGS + defs + ["-o", o], o))
+    lib_objs = _compile_many(jobs)
+    lib_objs = [o for o, s in zip(lib_objs, LIB_SOURCES) if s not in d["replaces"]]
+    edir = os.path.join(out_dir, "e_%s_%s" % (engine, hkey))
+    os.makedirs(edir, exist_ok=True)
+    with open(os.path.join(edir, "hdrv_engines.h"), "w") as f:
+        f.write("/* GENERATED by check/build.py */\nint eng_%s(FILE *in, FILE *out);\n"
+                "static const struct { const char *name; engine_fn fn; } engines[] = {\n"
+                '    {"%s", eng_%s},\n};\n' % (engine, engine, engine))
+    jobs = []
+    for sfile in hsrcs:
+        o = os.path.join(edir, os.path.basename(sfile)[:-2] + ".o")
+        jobs.append((["clang-14", "-c", sfile] + inc + ["-I" + edir] + CFLAGS + defs + ["-o", o], o))
+    try:
+        h_objs = _compile_many(jobs)
+        wraps = DEFAULT_WRAPS + [w for w in d["wraps"] if w not in DEFAULT_WRAPS]
+        cmd = ["clang-14", "-o", exe + ".tmp"] + h_objs + lib_objs + ["-fsanitize=address,undefined"] + \
+              ["-Wl,--wrap=" + w for w in wraps] + LDLIBS
+        p = subprocess.run(cmd, capture_output=True, text=True)
+        if p.returncode != 0:
+            raise BuildError("harness link failed", (p.stdout + p.stderr)[-6000:])
+        os.replace(exe + ".tmp", exe)
+    finally:
+        shutil.rmtree(edir, ignore_errors=True)
     return exe
-
-
-def _gen_engine_table(out_dir, h_files):
-    """hdrv_engines.h: one entry per `int eng_<name>(FILE *in, FILE *out)` found in harness/eng_*.c"""
-    names = []
-    for f in sorted(h_files):
-        if os.path.basename(f).startswith("eng_") and f.endswith(".c"):
-            with open(f) as fh:
-                for m in re.finditer(r"^int\s+eng_(\w+)\s*\(\s*FILE", fh.read(), re.M):
-                    names.append(m.group(1))
-    text = "/* GENERATED by check/build.py */\n"
-    text += "".join("int eng_%s(FILE *in, FILE *out);\n" % n for n in names)
-    text += "static const struct { const char *name; engine_fn fn; } engines[] = {\n"
-    text += "".join('    {"%s", eng_%s},\n' % (n, n) for n in names)
-    text += "};\n"
-    _write_if_changed(os.path.join(out_dir, "hdrv_engines.h"), text)
-
-
-# harness files named eng_*.c / hcommon.c / hdrv.c belong to "std"; files named <variant>_*.c to
-# that variant only.
-VARIANT_REPLACED = {"std": {"scram.c"}}  # compiled via harness/wrap_scram.c
-VARIANT_WRAPS = {"std": ["select", "gettimeofday", "clock_gettime"]}
-
-
-def _in_variant(path, variant):
-    base = os.path.basename(path)
-    m = re.match(r"v([a-z0-9]+)_", base)
-    if m:
-        return m.group(1) == variant
-    return True
 
 
 def run_extract():
@@ -294,10 +304,16 @@ if __name__ == "__main__":
     print("lake build:", ok, "%.1fs" % s)
     if not ok:
         print(log[-4000:])
-    try:
-        print("harness:", build_harness("std"))
-    except BuildError as e:
-        print(e.what)
-        print(e.log)
+    engs = sys.argv[1:] or sorted(f[4:-2] for f in os.listdir(os.path.join(VERIF, "harness"))
+                                  if f.startswith("eng_") and f.endswith(".c"))
+    bad = 0
+    for e in engs:
+        try:
+            print("harness %s:" % e, build_harness(e))
+        except BuildError as ex:
+            bad = 1
+            print("harness %s: %s" % (e, ex.what))
+            print(ex.log[-1500:])
+    if bad:
         sys.exit(1)
     sys.exit(0 if ok and not errs else 1)
